@@ -16,7 +16,14 @@ RULE = ("three generators, all against the real Replica.Restore(Follow) loop ste
         "(level,min,max) incl. gaps, overlaps, multi-TXID L0 files, level-9 snapshots for the resume validation, injected open / "
         "checksum failures; (kill) follower child process under strace inject=<write|pwrite64|ftruncate|fsync|rename*|unlink*>:"
         "signal=KILL:when=k for sampled (quick) / all (thorough) k in three scenarios (fresh restore, resume over intact L0, "
-        "resume needing L1/L2 bridging), sidecar-vs-content check, restart, converge, compare with Restore(latest). "
+        "resume needing L1/L2 bridging), sidecar-vs-content check, restart, converge, compare with Restore(latest); "
+        "(race) list/open races: the wrapper runs primary-side operations inside the follower's OpenLTXFile call, i.e. between its "
+        "listing and its k-th open (k = first, second): db.Compact(1) [+ L0Retention=1ns / EnforceL0RetentionByTime] or db.Compact(2) "
+        "[+ EnforceRetentionByTXID], then the listed file(s) the follower is about to open vanish (first / middle / all but the newest / "
+        "whatever real retention removes; from L0 while L1 covers them, from L1 while L2 covers them), 16 interleavings; the failed poll "
+        "must not move the sidecar, the follower must converge, bytes vs Restore(TXID=sidecar) and Restore(latest). The oracle "
+        "follow_applied_ok gets the files ACTUALLY applied (a file whose open failed is not applied) and the failed flag; the model case "
+        "carries the not-exist outcome per file, so a swallowed open error is both a model mismatch and a chain-rule violation. "
         "Cases: follow_poll (model = implementation on applied (level,min,max) sequence and sidecar), follow_resume "
         "(validation decision), follow_applied_ok (chain rule / progress / furthest-reachable oracle on the implementation's "
         "own output). distinct = distinct (entry,input); non-trivial = a poll that applied at least one file, or a resume "
@@ -25,7 +32,7 @@ RULE = ("three generators, all against the real Replica.Restore(Follow) loop ste
 
 def gen_cases(v, out, extra=None):
     if v.tier == "quick":
-        args = ["-n", "10", "-nsyn", "200", "-kills", "3"]
+        args = ["-n", "9", "-nsyn", "160", "-kills", "3"]
     else:
         args = ["-n", "200", "-nsyn", "8000", "-kills", "-1"]
     if extra is not None:
@@ -128,6 +135,8 @@ def replay(v, path):
         args = ["-replay", src]
     elif r.get("kind") == "hist":
         args = ["-hist-seed", str(r["seed"]), "-hist-idx", str(r["idx"])]
+    elif r.get("kind") == "race":
+        args = ["-race-seed", str(r["seed"]), "-race-idx", str(r["idx"])]
     elif r.get("kind") == "kill":
         args = ["-seed", str(r["seed"]), "-n", "0", "-nsyn", "0", "-kills", "-1"]
     else:
